@@ -371,6 +371,8 @@ class Raw(Call):
 
 
 # ---------------------------------------------------------------------------------------------- the step itself
+import re
+CONTAINED = re.compile(r"^/s/((objects|metadata|refs/(pids|cids))(/[0-9a-f]+)*(/[0-9a-f]+_delete)?|(objects|metadata|refs)/tmp(/tmp[0-9]+)?)$")
 CALLV = z3.Int("call")
 OFFV = z3.Int("offset")
 
@@ -469,6 +471,13 @@ def run_step(ps, w, menu, extra_assume=None):
         mut = [t for t in trace if t[0] in symfs.MUTATING]
         if mut:
             bad.append(("rejected-or-read-only-call-mutated", mut[:3]))
+    if w.F is not None:
+        esc = [t for t in trace if t[0] in symfs.MUTATING and t[1] != "fd" and not CONTAINED.match(t[1])]
+        if esc:
+            bad.append(("path-outside-store-or-not-hash-derived", esc[:3]))
+    else:
+        for pth in w.native_escapes():
+            bad.append(("path-outside-store-or-not-hash-derived", pth))
     rec = dict(n=n, call=call.label, roles=call.roles, res=res, bad=bad, nob=nob,
                err=(type(val).__name__ + ": " + str(val)[:160]) if isinstance(val, Exception) else None,
                ntrace=len(trace))
